@@ -32,8 +32,18 @@ def c15(ctx, rep):
         if g[6] != m[1]:
             # the model of BasicLatinLookup no longer computes what builder.BasicLatinLookup computes
             diff = [i for i in range(128) if g[6][i] != m[1][i]]
-            rep.violation("Gen.basic_latin (model) and builder.BasicLatinLookup disagree on class %s at runes %s" % (raw, diff[:8]),
-                          {"class": raw, "go_table": g[6], "model_table": m[1]}, found=False)
+            # search for a failing input: a rune on which the real table's decision differs from the general procedure
+            # (slow_decide, proved equal to class_decide and tied to the run-time by the C01 class correspondence)
+            inv = g[5] == "1"
+            bad = [i for i in diff if ((g[6][i] == "1") != inv) != (m[3][i] == "1")] if len(m) > 3 else []
+            if bad and g[4] != "1":
+                rep.violation("class %s: builder.BasicLatinLookup decides rune %d differently from the general matching procedure" % (raw, bad[0]),
+                              {"class": raw, "rune": bad[0], "input_hex": "%02x" % bad[0], "go_table": g[6], "model_table": m[1],
+                               "general_procedure": m[3], "how": "generate a parser for this class with and without -optimize-basic-latin and parse the one-byte input"},
+                              found=True)
+            else:
+                rep.violation("Gen.basic_latin (model) and builder.BasicLatinLookup disagree on class %s at runes %s" % (raw, diff[:8]),
+                              {"class": raw, "go_table": g[6], "model_table": m[1], "theorem": "C15 table_eq_slow_nofold is about the model table; correspondence Lower.basic_latin ~ builder.BasicLatinLookup broken"}, found=False)
         if m[2] == "0":
             disagree[g[0]] = raw
             if g[4] == "1":
@@ -46,7 +56,7 @@ def c15(ctx, rep):
     rep.cov["classes_with_i_where_table_differs (known finding)"] = known
     # run-time decisions of real parsers with and without -optimize-basic-latin, all 128 runes + non-ASCII + invalid bytes
     inputs = [bytes([i]) for i in range(128)] + [rune_bytes(r) for r in (0xe9, 0x212a, 0x3a3, 0x1f600, 0xfffd)] + [b"\xff", b"\xc3", b""]
-    sel = go[: ctx.q(40, 400)]
+    sel = go[: ctx.q(70, 400)]
     lines = []
     nid = 0
     for ci, g in enumerate(sel):
@@ -239,6 +249,35 @@ def c19(ctx, rep):
                 else:
                     rep.violation("repeated runs of pigeon %s produce different output" % " ".join(fl),
                                   {"grammar": r["peg"], "flags": fl, "distinct_outputs": len(hashes)}, found=True)
+    # the same on grammars rich in literals / classes / actions / shared leaf rules (what -optimize-grammar rewrites)
+    lines, pretty = corr.generate(ctx.sc, ctx.gen(), "c09", ctx.seed, ctx.q(60, 600), tag="c19")
+    texts, cur = {}, None
+    for l in open(pretty):
+        if l.startswith("## "):
+            cur = l.split()[1].split("/")[0]
+            texts[cur] = []
+        elif cur:
+            texts[cur].append(l)
+    optsets = [["-optimize-grammar"], ["-optimize-grammar", "-optimize-parser", "-optimize-basic-latin", "-support-left-recursion"], []]
+    jobs = [(gid, "".join(t), fl) for gid, t in texts.items() for fl in optsets]
+    def one(job):
+        gid, peg, fl = job
+        src = "{\npackage main\n}\n" + peg
+        hashes = set()
+        n = 0
+        for i in range(runs):
+            p = subprocess.run([ctx.pigeon()] + fl, input=src, stdout=subprocess.PIPE, stderr=subprocess.PIPE, text=True, timeout=120)
+            n += 1
+            hashes.add((p.returncode, hashlib.sha256((p.stdout + p.stderr).encode()).hexdigest()))
+        return gid, peg, fl, hashes, n
+    import concurrent.futures
+    with concurrent.futures.ThreadPoolExecutor(max_workers=C.NCPU) as ex:
+        for gid, peg, fl, hashes, n in ex.map(one, jobs):
+            nruns += n
+            if len(hashes) > 1:
+                rep.violation("repeated runs of pigeon %s produce different output" % " ".join(fl),
+                              {"grammar": peg, "flags": fl, "distinct_outputs": len(hashes), "runs": runs}, found=True)
+    rep.cov["optimizer_grammars"] = len(texts)
     rep.cov["evaluations"] = len(real) + nruns
     rep.cov["distinct_nontrivial"] = len({r["ast"] for r in real.values() if r["ast"].count("(ref ") >= 2})
     rep.cov["distribution"] = {"grammars": len(real), "tool_runs": nruns,
